@@ -165,7 +165,7 @@ def worker_main(argv):
             exhausted = False
             break
         seed = base_seed * 1_000_000 + i
-        faulthandler.dump_traceback_later(90, exit=True)
+        faulthandler.dump_traceback_later(240, exit=True)
         try:
             res = run_one(mod, seed, tier)
         except BaseException as e:  # harness error: reported apart from violations
